@@ -707,6 +707,16 @@ def suspender_popped_rule(run, f, rid):
     rcfg = Cfg(rb)
     cln = [x for (x, t) in rb.calls() if norm(t.get("callee") or "").endswith("Suspender::clean_current")]
     ok, _w = rcfg.must_pass([0], cln) if cln else (False, None)
+    if not ok:
+        # popped by the function that sets the redirect up (still in the handler, before the context is rewritten): the same pop
+        par = [p_ for p_ in f.bodies if p_.npath == norm(red[0].path.rsplit("::{closure#", 1)[0]) and p_.kind != "Promoted"]
+        if len(par) == 1:
+            pb = inl(f, par[0])
+            pcfg = Cfg(pb)
+            pcl = [x for (x, t) in pb.calls() if norm(t.get("callee") or "").endswith("Suspender::clean_current")]
+            pst = [x for (x, t) in pb.calls() if norm(t.get("callee") or "").endswith("::setup_trap_handler")]
+            if pcl and pst:
+                ok = pcfg.must_pass([0], pcl, exits=set(pst))[0]
     if ok:
         run.ok(rid, "trap-redirect/pops", "clean_current on every path of the redirect closure")
     else:
@@ -769,10 +779,19 @@ def grow_size_rule(run, f, rid):
     if not news:
         run.fail(rid, "maybe_grow_with/segment-size", b.loc(), "no DefaultStack::new in maybe_grow_with")
         return
+    # `if red_zone > stack_size { red_zone } else { stack_size }`: the comparison is a control dependence of the value
+    cmp_params = False
+    for blk in b.blocks:
+        for j, s_ in enumerate(blk["stmts"]):
+            if s_["k"] == "assign" and s_["rhs"]["k"] == "binop" and s_["rhs"]["op"] in ("Lt", "Le", "Gt", "Ge"):
+                pa = {b.name_of(p_) for p_ in backward(b, s_["rhs"]["a"], du, at=(blk["id"], j), through_calls="none").params}
+                pb = {b.name_of(p_) for p_ in backward(b, s_["rhs"]["b"], du, at=(blk["id"], j), through_calls="none").params}
+                if (pa, pb) in (({"red_zone"}, {"stack_size"}), ({"stack_size"}, {"red_zone"})):
+                    cmp_params = True
     for i, (x, t) in enumerate(news):
         sl = backward(b, t["args"][0], du, at=(x, "term"), through_calls="all")
         names = {b.name_of(p_) for p_ in sl.params}
-        maxed = any(norm(tt.get("orig") or tt.get("callee") or "").rsplit("::", 1)[-1] in ("max", "clamp") for (_y, tt) in sl.calls) or bool({"Lt", "Le", "Gt", "Ge"} & set(sl.binops()))
+        maxed = any(norm(tt.get("orig") or tt.get("callee") or "").rsplit("::", 1)[-1] in ("max", "clamp") for (_y, tt) in sl.calls) or bool({"Lt", "Le", "Gt", "Ge"} & set(sl.binops())) or cmp_params
         key = "maybe_grow_with/segment-size/%d" % i
         if "red_zone" in names and "stack_size" in names and maxed:
             run.ok(rid, key, "max(stack_size, red_zone)")
